@@ -355,3 +355,32 @@ func (c *Ctx) tableLiteral(obj types.Object) *ast.CompositeLit {
 	}
 	return found
 }
+
+// unfoldTrivial replaces a call of a module function that has no parameters
+// other than its receiver and whose body is a single `return <expr>` by that
+// expression (field paths are type-based, so the receiver's name does not
+// matter). Rules that look for a particular expression use it to see through
+// small helpers such as `func (l *lexer) offset() int { return l.pos + l.posShift }`.
+func (c *Ctx) unfoldTrivial(e ast.Expr) ast.Expr {
+	for depth := 0; depth < 4; depth++ {
+		e = stripParens(e)
+		call, ok := e.(*ast.CallExpr)
+		if !ok || len(call.Args) != 0 {
+			return e
+		}
+		fn, ok := c.callee(call).(*types.Func)
+		if !ok || fn.Pkg() == nil || (fn.Pkg().Path() != bclPath && fn.Pkg().Path() != cmdPath) {
+			return e
+		}
+		fd := c.funcDecls[fn]
+		if fd == nil || fd.Body == nil || len(fd.Body.List) != 1 {
+			return e
+		}
+		rs, ok := fd.Body.List[0].(*ast.ReturnStmt)
+		if !ok || len(rs.Results) != 1 {
+			return e
+		}
+		e = rs.Results[0]
+	}
+	return e
+}
